@@ -447,8 +447,32 @@ class World:
             get_regime = lambda t, x: r0 if t < tmid else cb - 100  # noqa: E731
         else:
             get_regime = lambda t, x: cb  # noqa: E731
+        self.client_peeks_rates(m)
         Fn = m.update_orientations(self.params(par), F, getL, (o + t0, o + t0 + dt, getx), get_regime=get_regime, **dict(self.solver_kw))
         return Fn, fl, dt
+
+    def client_peeks_rates(self, m):
+        """A stuttering step of the Layer-B machine: in every third world the client evaluates the public rate function
+        itself on the mineral's current state and regime before it asks for the update (its own diagnostics, its own
+        integrator), and does what it likes with the arrays it gets back - they are the client's.  Nothing the
+        specification talks about moves."""
+        if getattr(World, "_count", 0) % 3 != 1:
+            return
+        try:
+            from harness.chatter import scribble
+
+            core = self.pydrex.core
+            n = int(m.n_grains)
+            L = np.array([[0.0, 2.0, 0.0], [0.0, 0.0, 0.0], [0.0, 0.0, 0.0]])
+            D = (L + L.T) / 2
+            for regime in (m.regime, core.DeformationRegime.min_viscosity, core.DeformationRegime.max_viscosity):
+                out = core.derivatives(regime, m.phase, m.fabric, n, np.array(m.orientations[-1], dtype=float), np.array(m.fractions[-1], dtype=float), D, L, np.zeros((3, 3)), 3.5, 1.5, 5.0, 125.0, 1.0)
+                held = (out, getattr(self, "_held_rates", None))
+                scribble(out)
+                self._held_rates = out
+                del held
+        except Exception:  # noqa: BLE001 - which regimes / pairs the rate function refuses is C07's dispatch table, judged elsewhere
+            pass
 
     def _advance(self, name, fl, dt):
         t0 = self.t[name]
